@@ -133,6 +133,28 @@ ROUND5 = {
 }
 
 
+ROUND6 = {
+    "C02": " Round 6: every expression also in a model declaring the same names in the opposite order.",
+    "C03": " Round 6: matrices of a pickled copy.",
+    "C05": " Round 6: a slow process (total propensity 3e-9) over a long horizon.",
+    "C07": " Round 6: a parameter-target rule that reads the volume.",
+    "C08": " Round 6: sampler history (gamma delays with one shape and two scales).",
+    "C09": " Round 6: an additive rule with its target among its sources.",
+    "C10": " Round 6: a carried-over queue split between two daughters; gamma sampler with one shape and two scales.",
+    "C11": " Round 6: coarse ticks with a growing volume and sparse events; whole-run theorems volume_run_recorded / delayVolume_run_recorded.",
+    "C12": " Round 6: negative initial values.",
+    "C13": " Round 6: species carrying both initial attributes (tiny amounts).",
+    "C14": " Round 6: two different species each taken twice.",
+    "C16": " Round 6: 'positive' flag under log-space sampling, both inference kinds; theorem checkPrior_dict_order.",
+    "C17": " Round 6: copies of models extended with a delayed reaction and used again.",
+    "C18": " Round 6: an analysis object reused while the model's parameters change.",
+    "C19": " Round 6: uneven lineage grids; theorems splitCell_rule_splitter / splitCell_event_splitter / cellEventStep_division_index.",
+    "C20": " Round 6: crowded cells in partitions; theorem setCurrentTime_keeps_contents.",
+    "C01": " Round 6: theorems massAction_det_perm / massAction_stoch_perm.",
+    "C04": " Round 6: shared rate constants in the generated networks.",
+}
+
+
 def main():
     props = [json.loads(l) for l in open(os.path.join(HERE, "properties.jsonl"))]
     checks, na = [], []
@@ -140,7 +162,7 @@ def main():
         pid = p["id"]
         if pid in CLAIMED:
             c = dict(CLAIMED[pid])
-            c["text"] = c["text"] + ROUND4.get(pid, "") + ROUND5.get(pid, "")
+            c["text"] = c["text"] + ROUND4.get(pid, "") + ROUND5.get(pid, "") + ROUND6.get(pid, "")
             checks.append({
                 "property_id": pid,
                 "quick_cmd": "./check %s quick" % pid,
